@@ -304,7 +304,10 @@ static Delivered deliver(World &W, const Obj &o, const Slot &s, const Json &dl) 
             }
         }
         int al = e["al"].in(0);
-        char *p = (char *) thread_arena().place(b.data(), b.size(), al == 16 ? Arena::RIGHT : (al & 15));
+        char *p = nullptr;
+        if (e["same"].in(0) && !e.has("fx"))   // same pointer as an earlier, undamaged delivery of this device
+            for (size_t q = 0; q < D.devs.size(); q++) if (D.devs[q] == dev && D.bufs[q] == b) { p = D.ptrs[q]; W.fault("DUP.same-pointer"); break; }
+        if (!p) p = (char *) thread_arena().place(b.data(), b.size(), al == 16 ? Arena::RIGHT : (al & 15));
         if (((uintptr_t) p & 15) != 0) W.fault("MISALIGN");
         D.bufs.push_back(std::move(b));
         D.ptrs.push_back(p);
